@@ -133,7 +133,10 @@ func newMetaWorld(storage string, wrap ...bool) *metaWorld {
 		craftRoots(w.s, -10*day, 4*day, -3*day, 11*day)
 	}
 	for _, np := range []**world.Node{&w.A, &w.B} {
-		er, err := world.Enroll(w.s, world.FlowAuthorize, false, nil, nil, nil)
+		// the operator recorded state of its own with each node at authorization (server-side
+		// bookkeeping, not something the node sent): it must never show up as client state
+		opState, _ := structpb.NewStruct(map[string]any{"operator_note": "registered by the harness", "record_version": 3})
+		er, err := world.Enroll(w.s, world.FlowAuthorize, false, opState, nil, nil)
 		if err != nil {
 			panic(err)
 		}
